@@ -42,12 +42,12 @@ func (db *db) set(id int, key string, tree *Tree) {
 	} else {
 		db.buf = append(db.buf, &dec)
 		idx = len(db.buf) - 1
-		if id >= 0 {
-			db.idxID[id] = idx
-		}
-		if key != "-1" {
-			db.idxKey[key] = idx
-		}
+	}
+	if id >= 0 {
+		db.idxID[id] = idx
+	}
+	if key != "-1" {
+		db.idxKey[key] = idx
 	}
 	if _, ok := db.idxHash[tree.hsum]; !ok {
 		db.idxHash[tree.hsum] = idx
